@@ -108,7 +108,17 @@ def _impl(case):
     with Project({"bare.puml": bare, "qual.puml": qual, "again.puml": qual}) as p:
         # the same diagram file evaluated in the other mode first must not influence the result
         run(p.path("again.puml"), "qual", not case["only"])
-        out.append(("AGAIN", run(p.path("again.puml"), "qual", case["only"])))
+        first = DiagramRule(should_only_rule=case["only"]).from_file(p.path("again.puml")).base_module_included_in_module_names()
+        # ... nor must another rule object of the other mode that is merely CONSTRUCTED in between
+        DiagramRule(should_only_rule=not case["only"]).from_file(p.path("bare.puml")).with_base_module("zz")
+        try:
+            first.assert_applies(g)
+            again = "PASS"
+        except AssertionError as e:
+            again = "FAIL:" + ";".join(parse_message(str(e)))
+        except Exception as e:  # noqa: BLE001
+            again = "ERR:" + err_kind(e)
+        out.append(("AGAIN", again))
         # one rule object configured, applied, re-configured and applied again: the second application must behave like a
         # fresh object (with_base_module(p) = every component written as p.name, whatever happened to the object before)
         r = DiagramRule(should_only_rule=case["only"]).from_file(p.path("bare.puml")).with_base_module("zz_other")
